@@ -130,7 +130,7 @@ def perf_specs(draw, tier="quick"):
     # audit: Performance(..., ensure_unique_tracks=False) keeps the given numbers (then the numbers have to be
     # global, otherwise two generated tracks would share a file track and their equal keys could overlap)
     unique = True
-    if kind == "performance" and draw(st.sampled_from([False] * 7 + [True])):
+    if kind == "performance" and draw(st.sampled_from([False] * 4 + [True])):
         unique = False
         local_ids = "global"
     # audit: track numbers with gaps / not starting at 0 (increasing, so the order of the tracks is kept)
@@ -148,6 +148,9 @@ def perf_specs(draw, tier="quick"):
     bare = draw(st.sampled_from(["no", "no", "no", "notes", "controls", "both"]))
     if build == "note_array":
         bare = "controls" if bare in ("controls", "both") else "no"
+    # audit: load_performance(first_note_at_zero=True); then the first track often gets pedal events before
+    # its first note, so that "the value in force at the new time 0" is exercised
+    fnz = draw(st.sampled_from([False, False, True]))
 
     def local_track(g):
         if kind != "performance" or local_ids == "global":
@@ -169,8 +172,8 @@ def perf_specs(draw, tier="quick"):
         made = 0
         for _ in range(nkeys):
             ch, pitch = draw(_channel()), draw(_pitch())
-            if bare in ("notes", "both") and draw(st.booleans()):
-                ch = 1  # the documented default channel of a performed note: its key can be left out below
+            if (bare in ("notes", "both") or build == "note_array") and draw(st.booleans()):
+                ch = 1  # the documented default channel of a performed note: its key / array field can be left out below
             key = (ch, pitch) if merged else (g, ch, pitch)
             if key in used_keys:
                 if made:
@@ -196,6 +199,12 @@ def perf_specs(draw, tier="quick"):
             for (a, b) in times:
                 parts[p]["notes"].append(
                     dict(midi_pitch=pitch, note_on=a, note_off=b, velocity=draw(st.integers(1, 127)), channel=ch, track=local_track(g))
+                )
+        if fnz and g == 0 and not noteless and draw(st.booleans()):
+            p = owner[g] if owner is not None else 0
+            for tick in sorted(set(draw(st.lists(st.integers(0, 12), min_size=1, max_size=3)))):
+                parts[p]["controls"].append(
+                    dict(time=_time(tick, ppq, mpq), number=64, value=draw(st.integers(0, 127)), channel=0, track=local_track(g))
                 )
         for _ in range(draw(st.sampled_from([1, 2, 4] if noteless else [0, 0, 1, 2, 4]))):
             p = owner[g] if owner is not None else draw(st.integers(0, nparts - 1))
@@ -308,14 +317,14 @@ def perf_specs(draw, tier="quick"):
         empty_part_at=empty_at,
         default_bpm=draw(st.sampled_from([120, 120, 60, 100])),
         io=draw(st.sampled_from(["path", "path", "fileobj", "object"])),
-        api=draw(st.sampled_from(["midi", "midi", "generic"])),
+        api=draw(st.sampled_from(["generic", "generic", "generic", "midi"] if fnz else ["midi", "midi", "generic"])),
         # audit dimensions (all read with spec.get(..) so that older replay files keep their meaning)
         build=build,
         unique=unique,
         perf_arg=draw(st.sampled_from(["list", "list", "single"])) if kind == "performance" and len(parts) == 1 else "list",
         list_as=draw(st.sampled_from(["list", "list", "list", "tuple", "generator"])) if kind == "list" else "list",
         path_type=draw(st.sampled_from(["str", "str", "pathlib"])),
-        first_note_at_zero=draw(st.sampled_from([False, False, True])),
+        first_note_at_zero=fnz,
         pedal_threshold=draw(st.sampled_from([64, 64, 0, 1, 100, 127, 128])),
         resave=draw(st.sampled_from([False, True])),
     )
